@@ -134,6 +134,7 @@ type session struct {
 	faulting bool     // a fault plan is installed: newCounter / Add / extend only
 	wantGrow bool     // pick a name whose record does not fit into the file
 	runaway  []string // set when an operation grew the file by more than two pages (wire fields)
+	dead     string   // set when the writer can no longer open its own file
 }
 
 func (s *session) disk() []byte {
@@ -334,7 +335,7 @@ func (s *session) op1() []string {
 		// the handle may be behind the file now (growth done, remap failed): take a fresh one
 		s.close()
 		if !s.open() {
-			panic("cannot reopen after an injected fault")
+			s.dead = "after an injected fault"
 		}
 	}
 	return append([]string{"F", I(int64(k))}, f...)
@@ -424,13 +425,16 @@ func (s *session) plainOp() []string {
 		old := s.meta
 		s.meta = meta
 		ok := s.open()
+		if !ok && meta == old {
+			s.dead = "on a plain close and reopen"
+		}
 		out.Note("op-reopen")
 		f = []string{"R", HS(meta), map[bool]string{true: "done", false: "fail"}[ok]}
 		if !ok {
 			out.Note("op-reopen-refused")
 			s.meta = old
 			if !s.open() {
-				panic("cannot reopen with the original metadata")
+				s.dead = "after a refused open with other metadata"
 			}
 		}
 	}
@@ -471,7 +475,7 @@ func caseOps(init []byte, meta string, names []string) {
 		nops := 1 + rnd.Intn(14)
 		fields := []string{"ops", H(start), HS(s.meta), "open", I(int64(nops))}
 		done := 0
-		for i := 0; i < nops && s.runaway == nil; i++ {
+		for i := 0; i < nops && s.runaway == nil && s.dead == ""; i++ {
 			if s.pages() >= maxPages {
 				s.frozen = true // keep the case small
 			}
@@ -488,10 +492,15 @@ func caseOps(init []byte, meta string, names []string) {
 		}
 		fields[4] = I(int64(done))
 		final := s.disk()
+		if s.dead != "" {
+			// the writer is locked out of the file it wrote: report it with the file
+			out.Note("ops-writer-locked-out")
+			out.Case(true, "lockout", HS(s.meta), HS(s.dead), H(final))
+		}
 		fields = append(fields, H(final))
 		out.Note("ops-pages-" + strconv.Itoa(len(final)/16384))
 		out.Case(true, fields...)
-		if s.pages() > maxPages {
+		if s.pages() > maxPages || s.dead != "" {
 			break
 		}
 	}
@@ -674,7 +683,8 @@ func runRace(meta string, init []byte, progs [][]raceOp, plan [][2]int, fault in
 		}
 		info := s.Step(cur)
 		if info.Panic != "" {
-			panic("writer panicked: " + info.Panic)
+			res[cur] = []string{"panic"}
+			out.Note("race-writer-panicked")
 		}
 		sched = append(sched, cur)
 		l, z := fileLimitSize(path)
@@ -856,7 +866,8 @@ func caseRaceGrow(w, maxRuns, maxCases int, faults bool) {
 	path := filepath.Join(dir, "c.v1.count")
 	s := &session{path: path, meta: meta}
 	if !s.open() {
-		panic("cannot create the file of a race scenario")
+		out.Note("race-scenario-file-not-created")
+		return
 	}
 	for s.growName() == "" {
 		_, _, cur, err := s.m.NewCounter(fmtgen.NameOfLen(rnd, 3700+rnd.Intn(390)))
